@@ -122,7 +122,7 @@ pub fn suite_encode(out: &mut Out, tier: &str, rng: &mut Rng) {
     // header, a message header)
     for ki in 0..=KINDS.len() + 1 {
         for plen in 0..=17usize {
-            if tier != "thorough" && (ki + plen) % 3 != 0 {
+            if tier != "thorough" && plen != 0 && (ki + plen) % 3 != 0 {
                 continue;
             }
             let (kind, v) = if ki < KINDS.len() { ("avp", gen_avp_kind(rng, ki, 9)) } else if ki == KINDS.len() { ("msg", gen_control(rng, 3, 8)) } else { ("msg", gen_data(rng, 12)) };
@@ -135,6 +135,13 @@ pub fn suite_encode(out: &mut Out, tier: &str, rng: &mut Rng) {
                 _ => rng.bytes(plen),
             };
             out.emit(json!({"op": "encode", "kind": kind, "v": v, "prefix": bytes_json(&prefix), "wr": if (ki + plen) % 2 == 0 { "vec" } else { "mon" }}));
+            if plen == 0 {
+                // the writer already ends with exactly this value's own encoding (once, twice, and all but its last octet)
+                let twice: Vec<u8> = own.iter().chain(own.iter()).copied().collect();
+                for pre in [own.clone(), twice, own[..own.len() - 1].to_vec()] {
+                    out.emit(json!({"op": "encode", "kind": kind, "v": v, "prefix": bytes_json(&pre), "wr": "vec"}));
+                }
+            }
         }
     }
     // sizes around 2^16 and 2^17: a length computed or compared in 16 bits would wrap here
@@ -482,6 +489,58 @@ pub fn suite_hide(out: &mut Out, tier: &str, rng: &mut Rng) {
                             "lp": [], "ap": bytes_json(&blk)}));
         }
     }
+    // cipher-state coincidences, crafted (the value octets are free): a cipher block that is all zero (the first
+    // one needs a random vector searched so that the key's first two octets equal the length subfield), two equal
+    // consecutive cipher blocks, a cipher block equal to the secret's first 16 octets
+    for case in 0..counts(tier, 8, 60) {
+        let nblk = 2 + (case % 3) as usize;
+        let vlen = 16 * nblk - 2;
+        let total = (6 + vlen) as u16;
+        let secret = rng.rbytes(1, 24);
+        let t = 7u16;
+        // search the random vector
+        let mut rv = rng.bytes(4);
+        let zero_first = case % 4 == 0;
+        if zero_first {
+            let mut found = false;
+            for i in 0..400000u32 {
+                let cand = i.to_be_bytes();
+                let k = md5_of(&[&t.to_be_bytes(), &secret, &cand]);
+                if k[0] == (total >> 8) as u8 && k[1] == total as u8 {
+                    rv = cand.to_vec();
+                    found = true;
+                    break;
+                }
+            }
+            if !found {
+                continue;
+            }
+        }
+        let key1 = md5_of(&[&t.to_be_bytes(), &secret, &rv]);
+        let mut plain: Vec<u8> = total.to_be_bytes().to_vec();
+        if zero_first {
+            plain.extend_from_slice(&key1[2..]);            // p1 = key1  =>  c1 = 0
+        } else {
+            plain.extend(rng.bytes(14));
+        }
+        let mut prev: Vec<u8> = plain[..16].iter().zip(key1.iter()).map(|(a, b)| a ^ b).collect();
+        for b in 1..nblk {
+            let key = md5_of(&[&secret, &prev]);
+            let target: Vec<u8> = match (case + b as u64) % 3 {
+                0 => vec![0u8; 16],                                   // this cipher block all zero
+                1 => prev.clone(),                                    // equal to the previous cipher block
+                _ => secret.iter().cycle().take(16).copied().collect(),
+            };
+            let p: Vec<u8> = target.iter().zip(key.iter()).map(|(a, b)| a ^ b).collect();
+            plain.extend_from_slice(&p);
+            prev = target;
+        }
+        let value = plain[2..].to_vec();
+        out.emit(json!({"op": "hide_reveal", "v": {"k": "HostName", "f": [bytes_json(&value)]}, "secret": bytes_json(&secret), "rv": bytes_json(&rv),
+                        "lp": [], "ap": bytes_json(&[0u8; 16])}));
+        out.emit(json!({"op": "hide", "v": {"k": "HostName", "f": [bytes_json(&value)]}, "secret": bytes_json(&secret), "rv": bytes_json(&rv),
+                        "lp": [], "ap": bytes_json(&[0u8; 16])}));
+    }
     // every kind once, no length padding
     for ki in 0..KINDS.len() {
         if tier != "thorough" && ki % 3 != 0 {
@@ -721,6 +780,11 @@ pub fn suite_bitmask(out: &mut Out, tier: &str, rng: &mut Rng) {
             words.push((rng.next() as u32).to_be_bytes());
         }
         out.emit(json!({"op": "bitmask", "kind": k, "words": words.iter().map(|w| bytes_json(w)).collect::<Vec<_>>()}));
+        // the same words as whole records through AVP::try_read_greedy, header M bit set / clear / reserved bits set
+        for f6 in [1u8, 0, 0x3d, 0x3c] {
+            let some: Vec<Value> = words.iter().step_by(if tier == "thorough" { 1 } else { 4 }).map(|w| bytes_json(w)).collect();
+            out.emit(json!({"op": "bitmask", "kind": k, "words": some, "f6": f6}));
+        }
         // the same words followed by surplus payload octets (ignored by the layout: the word is the first four)
         for surplus in [vec![0u8], vec![0, 0, 0, 0x80], vec![0xff, 0xff, 0xff, 0x3f, 1, 2, 3, 4]] {
             let some: Vec<Value> = words.iter().step_by(if tier == "thorough" { 1 } else { 5 }).map(|w| bytes_json(w)).collect();
